@@ -110,7 +110,7 @@ Exp(S, e) ==
     [] e.op \in {"b_truncate", "m_truncate"} ->
          IF x < len THEN Res("ok", h :> Take(v, x), {}) ELSE Same   \* documented no-op beyond the end
     [] e.op \in {"b_clear", "m_clear"} -> Res("ok", h :> <<>>, {})
-    [] e.op \in {"b_advance", "m_advance"} ->
+    [] e.op \in {"b_advance", "m_advance", "b_copy_to_slice", "m_copy_to_slice"} ->
          IF x <= len THEN Res("ok", h :> Drop(v, x), {}) ELSE Panics
     [] e.op \in {"b_into_vec", "b_into_mut", "m_freeze", "m_into_vec", "v_into_bytes"} ->
          Res("ok", n :> v, {h})
@@ -130,7 +130,9 @@ Exp(S, e) ==
          IF x >= 0 /\ len + x <= IMAXW THEN Same ELSE Res("either", EmptyFn, {})
     [] e.op \in {"m_fill_spare", "m_chunk_mut_fill"} -> Same
     [] e.op = "m_extend" -> Res("ok", h :> v \o Data(e), {})
-    [] e.op = "m_put_bytes" -> Res("ok", h :> v \o [i \in 1..x |-> e.args.val], {})
+    [] e.op = "m_put_bytes" ->
+         \* (a count that makes the length unrepresentable must panic, in every build)
+         IF x >= 0 /\ len + x <= IMAXW THEN Res("ok", h :> v \o [i \in 1..x |-> e.args.val], {}) ELSE Panics
     [] e.op = "m_write_at" ->
          IF Ret(e) >= 0 /\ Ret(e) < len THEN Res("ok", h :> [v EXCEPT ![Ret(e) + 1] = e.args.val], {}) ELSE Same
     [] e.op = "m_unsplit" -> Res("ok", h :> v \o S.val[Oth(e)], {Oth(e)})
@@ -162,6 +164,10 @@ FreesOf(e) == {m \in RangeOf(MemEv(e)) : m.e = "free"}
 LogLimit == 16384
 ValueLaws(S, e, E, k, val2, obs) ==
   (IF E.want = "ok" /\ k # "ok" THEN {<<"C01", "in_contract_ok">>} ELSE {})
+  \* the bytes a copying read delivered are the first x bytes the handle held
+  \cup (IF /\ e.op \in {"b_copy_to_slice", "m_copy_to_slice"} /\ E.want = "ok" /\ k = "ok" /\ e.h \in DOMAIN S.val
+           /\ Data(e) # SubSeq(S.val[e.h], 1, X(e))
+        THEN {<<"C01", "value_eq">>} ELSE {})
   \cup (IF DOMAIN obs # DOMAIN val2 THEN {<<"C01", "value_eq">>}
         \* (the harness does not log contents longer than LogLimit bytes: only the length is compared then)
         ELSE IF \E h \in DOMAIN obs : obs[h].len # Len(val2[h]) \/ (obs[h].len >= 0 /\ obs[h].len <= LogLimit /\ obs[h].d # val2[h])
@@ -296,7 +302,7 @@ ZeroCopy(S, e, k, obs) ==
          noalloc \cup (IF known THEN eaddr(At(r, p.a, p.off) /\ At(q, p.a, p.off + p.len)) ELSE {})
     [] e.op \in {"b_truncate", "b_clear", "m_truncate", "m_clear"} ->
          noalloc \cup addr(q.len = 0 \/ At(q, p.a, p.off))
-    [] e.op \in {"b_advance", "m_advance"} ->
+    [] e.op \in {"b_advance", "m_advance", "b_copy_to_slice", "m_copy_to_slice"} ->
          noalloc \cup addr(q.len = 0 \/ At(q, p.a, p.off + x))
     [] e.op = "m_freeze" -> noalloc \cup addr(r.len = 0 \/ At(r, p.a, p.off))
     [] e.op = "b_static" -> noalloc \cup addr(r.len = 0 \/ r.a = -1)
